@@ -10,6 +10,9 @@ var vHarnesses = map[string]func(){
 	"VH_C11":   VH_C11,
 	"VH_C12":   VH_C12,
 	"VH_C19":   VH_C19,
+	"VH_C03":   VH_C03,
+	"VH_C03N":  VH_C03N,
+	"VH_C16":   VH_C16,
 	"VH_C18":   VH_C18,
 	"VH_C17R":  VH_C17R,
 	"VH_C17N":  VH_C17N,
